@@ -409,6 +409,23 @@ Proof.
       * apply IH; assumption.
 Qed.
 
+(* ------------------------------------------------------------------ header_key *)
+Lemma header_key_lower hs name : lower (header_key hs name) = lower name.
+Proof.
+  induction hs as [|[k v] hs IH]; cbn [header_key]; [reflexivity|].
+  destruct (bytes_eqb (lower k) (lower name)) eqn:E; [|exact IH].
+  apply bytes_eqb_eq in E. exact E.
+Qed.
+
+Lemma header_key_token hs name :
+  forallb hdr_ok hs = true -> is_token name = true -> is_token (header_key hs name) = true.
+Proof.
+  intros Hok Hn. induction hs as [|[k v] hs IH]; cbn [header_key]; [exact Hn|].
+  cbn [forallb] in Hok. apply andb_true_iff in Hok as [Hkv Hok].
+  destruct (bytes_eqb (lower k) (lower name)); [|exact (IH Hok)].
+  unfold hdr_ok in Hkv. cbn [fst] in Hkv. apply andb_true_iff in Hkv as [Hk _]. exact Hk.
+Qed.
+
 (* ------------------------------------------------------------------ shape of the packet *)
 Lemma fold_render l p :
   fold_left (fun pkt kv => pkt ++ build_http_header (fst kv) (snd kv) ++ CRLF) l p =
@@ -418,7 +435,7 @@ Proof. apply (fold_left_concat render). Qed.
 Lemma build_http_pkt_shape line h body cc :
   build_http_pkt line (Some h) body cc =
   join [SP] line ++ CRLF ++
-  concat (map render (if cc then dict_set K_CONNECTION V_CLOSE h else h)) ++ CRLF ++
+  concat (map render (if cc then dict_set (header_key h K_CONNECTION) V_CLOSE h else h)) ++ CRLF ++
   (if truthy body then bytes_or_empty body else []).
 Proof.
   unfold build_http_pkt. cbv zeta. cbn [hdrs_or_empty]. rewrite fold_render.
@@ -459,8 +476,9 @@ Qed.
 Lemma final_headers_eq a : has_te (hdrs_or_empty (a_headers a)) = false ->
   final_headers a =
   let hs := hdrs_or_empty (a_headers a) in
-  let hs := if a_no_cl a then hs else dict_set K_CONTENT_LENGTH (cl_value a) hs in
-  if a_conn_close a then dict_set K_CONNECTION V_CLOSE hs else hs.
+  let hs := if a_no_cl a then hs
+            else dict_set (header_key hs K_CONTENT_LENGTH) (cl_value a) hs in
+  if a_conn_close a then dict_set (header_key hs K_CONNECTION) V_CLOSE hs else hs.
 Proof.
   intros Hte. unfold final_headers. cbv zeta. rewrite Hte. cbn [negb andb].
   destruct (a_no_cl a); reflexivity.
